@@ -18,3 +18,53 @@ def integrate(props, imports, header, body):
     s=add_import_line(s, imports)
     s=s.rstrip()+"\n\n"+header+"\n"+ensure_print(body)
     open(props,'w').write(s)
+
+
+TIE_MARK = "(* ====================== TRANSLATOR TIE"
+
+
+def integrate_block(props, imports, header, body):
+    """append a block of theorems (imports + header comment + body) to a Props file; if the file ends with the translator-tie block
+    (whose imports shadow model names), insert before it"""
+    s = open(props).read()
+    block = "\n" + header.rstrip() + "\n" + imports.rstrip() + "\n" + ensure_print(body)
+    if TIE_MARK in s:
+        i = s.index(TIE_MARK)
+        s = s[:i].rstrip() + "\n" + block + "\n\n" + s[i:]
+    else:
+        s = s.rstrip() + "\n" + block
+    open(props, "w").write(s)
+
+
+def integrate_gentie(snippet="coq/Proofs/GenTie.props-snippet"):
+    """(re)place the translator-tie block at the END of every Props file the snippet has a section for"""
+    t = open(snippet).read()
+    i = t.index("From Coq Require Import")
+    j = t.index("Import ListNotations.")
+    req = t[i:j].rstrip()
+    parts = re.split(r"\(\* ================= for Props/(C\d\d)\.v[^\n]*\n", t)
+    # parts = [pre, id1, text1, id2, text2, ...]; text1 starts inside the comment of its header
+    for k in range(1, len(parts), 2):
+        pid, txt = parts[k], parts[k + 1]
+        txt = txt[txt.index("*)") + 2:]            # drop the rest of the section's header comment
+        if k == 1:
+            txt = txt[txt.index("Local Open Scope nat_scope.") + len("Local Open Scope nat_scope."):]
+        p = "coq/Props/%s.v" % pid
+        s = open(p).read()
+        if TIE_MARK in s:
+            s = s[:s.index(TIE_MARK)].rstrip() + "\n"
+        hdr = ("\n" + TIE_MARK + " (Proofs/GenTie*.v) ======================\n"
+               "   coq/Gen/*.v is the Gallina rendering of the Python source produced by harness/pytrans.py; every run of ./check regenerates it\n"
+               "   from /repo and compares it function by function with the committed text (evidence: translator_tie).  The theorems below say\n"
+               "   that the hand-written model (the subject of the theorems above) computes, for ALL inputs satisfying the stated\n"
+               "   well-formedness, exactly what the translated source computes.  This block stays LAST in the file: its imports shadow\n"
+               "   model names. *)\n")
+        s = s.rstrip() + "\n" + hdr + req + "\nLocal Open Scope nat_scope.\n" + ensure_print(txt)
+        open(p, "w").write(s)
+        print("gentie ->", p)
+
+
+if __name__ == "__main__":
+    import sys
+    if sys.argv[1:] == ["gentie"]:
+        integrate_gentie()
